@@ -18,7 +18,7 @@ KANI_TARGET = os.path.join(VERIF, '.cache', 'kani')
 CRATES = {
     'sdk': {'dir': 'sdk', 'args': ['--no-default-features', '--features', 'openssl']},
     'ffi': {'dir': 'c2pa_c_ffi', 'args': []},
-    'sdk_fileio': {'dir': 'sdk', 'args': ['--no-default-features', '--features', 'openssl,file_io']},
+    'sdk_fileio': {'dir': 'sdk', 'args': ['--no-default-features', '--features', 'openssl,file_io'], 'target_suffix': '_fileio'},
 }
 
 
